@@ -26,6 +26,8 @@ def run(ctx):
     r164(ctx, wr)
     r165(ctx, api)
     r166(ctx, ut)
+    from . import c14
+    c14.r145(ctx, 'R16.7')
     from . import callsigs as _cs
     _cs.general_rules(ctx, 'R16', ['writer.write', 'writer.update_file_custom_metadata', 'util.update_custom_metadata', 'writer.write_simple', 'writer.write_multi', 'writer.write_common_metadata', 'writer.consolidate_categories'])
 
